@@ -49,8 +49,8 @@ def sumsq(x):
 
 
 def eval_least_squares_with_regularisation(objfun, x, h=None, argsf=(), argsh=(), verbose=True, eval_num=0, pt_num=0, full_x_thresh=6, check_for_overflow=True):
-    # Evaluate least squares function
-    fvec = objfun(x, *argsf)
+    # Evaluate least squares function (on a copy: x can be the solver's own storage, which user code must not be able to alter)
+    fvec = objfun(x.copy(), *argsf)
 
     if check_for_overflow:
         try:
